@@ -10,8 +10,10 @@ import (
 	"sync"
 	"time"
 
+	"github.com/notaryproject/notation-core-go/revocation"
 	"github.com/notaryproject/notation-core-go/revocation/crl"
 
+	"verif/harness/core"
 	"verif/harness/netsim"
 	"verif/harness/pki"
 )
@@ -27,7 +29,7 @@ const (
 // CRLBehaviours is the alphabet for one distribution point.
 var CRLBehaviours = []string{
 	"clean", "clean-idp", "clean-noncrit-ext", "lists", "lists-hold", "lists-removed",
-	"wrong-signer", "expired", "no-nextupdate", "crit-list-ext", "crit-entry-ext", "other-crit-entry",
+	"wrong-signer", "foreign-issuer-crl", "expired", "no-nextupdate", "crit-list-ext", "crit-list-ext-after-idp", "crit-entry-ext", "other-crit-entry",
 	"delta-ok", "delta-lists", "delta-removes", "delta-num-lt", "delta-num-eq",
 	"delta-ind-lt", "delta-ind-eq", "delta-ind-gt", "delta-no-ind",
 	"delta-wrong-signer", "delta-expired", "delta-no-nextupdate", "delta-crit-ext",
@@ -97,6 +99,14 @@ func (k *Kit) CRL(beh string, slot int) *CRLSet {
 
 func (k *Kit) buildCRL(beh string, slot int) *CRLSet {
 	set := &CRLSet{Beh: beh, Class: CRLClass(beh)}
+	if beh == "foreign-issuer-crl" {
+		// the genuine, clean bundle OBJECT of another issuer (validated under its
+		// true issuer elsewhere in this process)
+		ff := foreignFamily()
+		src := ff.KitFor(0, HTTPShape(0, 1), Shape{}).CRL("clean", 0)
+		warmCRL(ff, src)
+		return &CRLSet{Beh: beh, Class: CRLBad, BaseDER: src.BaseDER, Bundle: src.Bundle}
+	}
 	switch beh {
 	case "fetch-fail", "http-404", "http-500", "err", "timeout", "garbage", "empty":
 		return set
@@ -133,6 +143,9 @@ func (k *Kit) buildCRL(beh string, slot int) *CRLSet {
 	case "no-nextupdate":
 		base.NextUpdate = time.Time{}
 	case "crit-list-ext":
+		base.UnknownCrit = true
+	case "crit-list-ext-after-idp":
+		base.IDP = true // the unknown critical extension is encoded after a known one
 		base.UnknownCrit = true
 	case "crit-entry-ext":
 		base.Entries = append(base.Entries, pki.CRLEntry{Serial: serial, Time: t1, Reason: 8, UnknownCritical: true})
@@ -399,3 +412,33 @@ func (k *Kit) CRLHandlers(net *netsim.Sim, slot int, beh string) {
 }
 
 var _ = x509.ParseRevocationList
+
+var warmed sync.Map
+
+var (
+	foreignOnce sync.Once
+	foreignFam  *Family
+)
+
+// foreignFamily is a family whose keys no scenario family shares.
+func foreignFamily() *Family {
+	foreignOnce.Do(func() { foreignFam = NewFamily("foreign", 2, "p384", "p384", "codesigning", 2) })
+	return foreignFam
+}
+
+// warmCRL has the library validate the foreign bundle under its TRUE issuer once.
+func warmCRL(f *Family, set *CRLSet) {
+	if _, done := warmed.LoadOrStore(set, true); done {
+		return
+	}
+	chain := f.Chain([]Shape{HTTPShape(0, 1), {}})
+	ft := NewFetcher()
+	ft.Bundles[f.URL(0, "d", 0, "http")] = set.Bundle
+	v, err := revocation.NewWithOptions(revocation.Options{OCSPHTTPClient: DeadClient(), CRLFetcher: ft})
+	if err != nil {
+		return
+	}
+	core.Guard(func() {
+		v.ValidateContext(context.Background(), revocation.ValidateContextOptions{CertChain: chain})
+	})
+}
